@@ -68,9 +68,13 @@ def preds():
     P = [None]
     atoms = [('path', False, [('child', 'b', None)]), ('path', False, [('descendant', '*', None)]), ('path', False, [('child', '*', None), ('child', 'c', None)]),
              ('path', True, [('child', 'a', None), ('child', 'b', None)]), ('path', True, [('descendant-or-self', '*', None), ('child', 'c', None)]),
-             ('cmp', '==', 'x'), ('cmp', '!=', 'x'), ('cmp', '<', 'y'), ('str',)]
+             ('cmp', '==', 'x'), ('cmp', '!=', 'x'), ('cmp', '<', 'y'), ('str',),
+             ('path', True, [('child', 'b', None), ('child', 'ab', None)]), ('path', True, [('child', 'ab', None), ('child', 'c', None)]),
+             ('path', True, [('child', 'b', None)]), ('path', False, [('child', 'b', None), ('child', 'ab', None)]),
+             ('path', True, [('child', '*', None), ('child', 'c', None)])]
     P += atoms
-    P += [('not', a) for a in atoms[:6]]
+    P += [('not', a) for a in atoms[:6] + atoms[9:11]]
+    P += [('or', atoms[0], atoms[9]), ('and', ('not', atoms[10]), atoms[1])]
     P += [('and', atoms[0], atoms[5]), ('or', atoms[3], atoms[5]), ('and', ('not', atoms[1]), atoms[6]), ('or', atoms[2], ('not', atoms[5])),
           ('path', False, [('child', '*', ('cmp', '==', 'x'))])]
     return P
